@@ -2,8 +2,11 @@ package main
 
 import (
 	"bufio"
+	"encoding/json"
 	"flag"
 	"os"
+	"reflect"
+	"strconv"
 
 	"github.com/zalf-rpm/Hermes2Go/hermes"
 )
@@ -23,7 +26,18 @@ func c04Cmd(args []string) {
 	work := fs.String("work", ".", "scratch tree (project/, weather/, parameter/)")
 	linesFile := fs.String("lines", "", "file with batch lines")
 	probe := fs.Bool("probe", false, "record the calendar state and the weather echo of every day")
+	varsFile := fs.String("vars", "", "json list of [name, sub, idx1, idx2]: state variables read (by the harness' own reflection) at the end of every day")
 	fs.Parse(args)
+	var vars [][]interface{}
+	if *varsFile != "" {
+		b, err := os.ReadFile(*varsFile)
+		if err != nil {
+			panic(err)
+		}
+		if err := json.Unmarshal(b, &vars); err != nil {
+			panic(err)
+		}
+	}
 	defer stdout.Flush()
 	f, err := os.Open(*linesFile)
 	if err != nil {
@@ -39,6 +53,7 @@ func c04Cmd(args []string) {
 		}
 		var days [][]int
 		var echo [][]string
+		var vals [][]string
 		if *probe {
 			hermes.VerifProbe = func(stage string, zeit, subd int, wdt float64, g *hermes.GlobalVarsMain, w *hermes.WaterSharedVars, n *hermes.NitroSharedVars) {
 				if stage != "dayend" {
@@ -46,6 +61,9 @@ func c04Cmd(args []string) {
 				}
 				days = append(days, []int{zeit, g.TAG.Index, g.J, g.JTAG})
 				echo = append(echo, hxs([]float64{g.TEMPdaily, g.TMINdaily, g.TMAXdaily, g.RHdaily, g.RADdaily, g.WINDdaily, g.REGENdaily}))
+				if vars != nil {
+					vals = append(vals, readVars(g, vars))
+				}
 			}
 		}
 		res := runProject(*work, splitArgs(line))
@@ -54,9 +72,58 @@ func c04Cmd(args []string) {
 		if *probe {
 			o["days"] = days
 			o["echo"] = echo
+			if vars != nil {
+				o["vals"] = vals
+			}
 		}
 		emit(o)
 		stdout.Flush()
 		lineNo++
 	}
+}
+
+// readVars resolves name[.sub][idx1][idx2] on the run state with reflection code of the harness (independent of
+// hermes.LoadHermesOutputConfig) and renders float64 exactly (hex), int in decimal, string as is; "?" = not resolvable
+func readVars(g *hermes.GlobalVarsMain, vars [][]interface{}) []string {
+	out := make([]string, len(vars))
+	root := reflect.ValueOf(g).Elem()
+	for k, v := range vars {
+		out[k] = "?"
+		name, _ := v[0].(string)
+		sub, _ := v[1].(string)
+		i1f, _ := v[2].(float64)
+		i2f, _ := v[3].(float64)
+		i1, i2 := int(i1f), int(i2f)
+		f := root.FieldByName(name)
+		if !f.IsValid() {
+			continue
+		}
+		if f.Kind() == reflect.Struct {
+			f = f.FieldByName(sub)
+			if !f.IsValid() {
+				continue
+			}
+		}
+		if f.Kind() == reflect.Array || f.Kind() == reflect.Slice {
+			if i1 >= f.Len() {
+				continue
+			}
+			f = f.Index(i1)
+			if f.Kind() == reflect.Array {
+				if i2 >= f.Len() {
+					continue
+				}
+				f = f.Index(i2)
+			}
+		}
+		switch f.Kind() {
+		case reflect.Float64:
+			out[k] = hx(f.Float())
+		case reflect.Int:
+			out[k] = strconv.FormatInt(f.Int(), 10)
+		case reflect.String:
+			out[k] = f.String()
+		}
+	}
+	return out
 }
